@@ -520,6 +520,19 @@ MONO_TRIPLES = [
 ]
 
 
+# matches within matches on fixed inputs: (parent pattern, program, key of the parent's __e__, sub-pattern,
+# what C11 expects of the sub-pattern inside the bound subtree: None = nothing, {} = a match, {k: id} = bindings)
+SUB_CORPUS = [
+    ("_v_ = __e__", "x = y", "__e__", "_v_", None),
+    ("_v_ = __e__", "x = y + 1", "__e__", "_v_ + 1", None),
+    ("_v_ = __e__", "x = x + 1", "__e__", "_v_ + 1", None),
+    ("_v_ = __e__", "x = x + 1", "__e__", "_w_ + 1", {"_w_": "x"}),
+    ("for _i_ in ___:\n    __e__", "for k in d:\n    print(k, j)", "__e__", "print(_i_, ___)", None),
+    ("def _f_(_a_):\n    __e__", "def g(x):\n    return g(x - 1)", "__e__", "_f_(___)", None),
+    ("print(__e__)", "print(a.b(c))", "__e__", "a.b(c)", {}),
+]
+
+
 def repo_program_files():
     files = sorted(glob.glob(os.path.join(REPO, "examples", "**", "*.py"), recursive=True))
     files += sorted(glob.glob(os.path.join(REPO, "tests", "datafiles", "*.py")))
@@ -746,18 +759,70 @@ def copy_ast(node):
     return new
 
 
+def cait_children(node):
+    """(field, child) of an ast node in CaitNode's child order"""
+    out = []
+    for field, value in ast.iter_fields(node):
+        if value is None:
+            continue
+        for v in (value if isinstance(value, list) else [value]):
+            if isinstance(v, ast.AST):
+                out.append((field, v))
+    return out
+
+
+class AlignError(Exception):
+    pass
+
+
+def align_trees(pn, on, ppath, opath_, orig_of, stop, out):
+    """pattern node pn (a copy, or a placeholder that replaced a copy) stands for original node `on`:
+    record the pair and align the children first-fit in order (children may have been dropped; CPython shares
+    ctx / operator singletons between nodes, so identity alone does not locate a child)."""
+    out.append((ppath, opath_))
+    if id(pn) in stop:
+        return
+    ochildren = cait_children(on)
+    j = 0
+    for i, (f, c) in enumerate(cait_children(pn)):
+        oc = orig_of.get(id(c))
+        while j < len(ochildren) and not (ochildren[j][0] == f and ochildren[j][1] is oc):
+            j += 1
+        if oc is None or j == len(ochildren):
+            raise AlignError()
+        align_trees(c, oc, ppath + (i,), opath_ + (j,), orig_of, stop, out)
+        j += 1
+
+
 class Derived:
     """A pattern obtained from (a statement of) a program by C11's steps, with what each placeholder
     replaced: exps[key] = (CAIT path, source) of the replaced expression in the ORIGINAL program,
     vars[key] = original identifier."""
 
-    def __init__(self, code, pattern, exps, vars_, steps, base):
+    def __init__(self, code, pattern, exps, vars_, steps, base, align=None):
         self.code = code
         self.pattern = pattern
         self.exps = exps
         self.vars = vars_
         self.steps = steps
         self.base = base
+        self.align = align      # [(pattern CAIT path, program CAIT path)] from the derivation, or None
+
+    def gen_request(self, penc, senc, statement_exps=True):
+        """`gen` request for the driver: does this case satisfy the hypotheses of the C11 theorem
+        (c11_generalised_fragment_matches, through the decidable genCase)?
+        statement_exps: an __e__ that is a whole expression statement stands for the statement node (it does,
+        unless that statement is the whole pattern and is trimmed away: then it stands for the expression)."""
+        out = ["gen", penc, senc, str(len(self.vars))]
+        for k, x in self.vars.items():
+            out += [enc_str(k), enc_str(x)]
+        out.append(str(len(self.exps)))
+        for k, v in self.exps.items():
+            out += [enc_str(k), enc_path(v[2] if statement_exps and len(v) > 2 and v[2] is not None else v[0])]
+        out.append(str(len(self.align)))
+        for a, b in self.align:
+            out += [enc_path(a), enc_path(b)]
+        return " ".join(out)
 
 
 def derive(rng, code, tree, whole=None, max_steps=4):
@@ -780,6 +845,7 @@ def derive(rng, code, tree, whole=None, max_steps=4):
         frag = ast.Module(body=[st], type_ignores=[])
         base = type(st).__name__
     exps, vars_ = {}, {}
+    placeholders = {}       # id -> node (kept alive so that ids stay unique)
     n_steps = rng.randint(0, max_steps)
     for _ in range(n_steps):
         k = rng.random()
@@ -791,11 +857,15 @@ def derive(rng, code, tree, whole=None, max_steps=4):
             parent, field, idx, node = rng.choice(cands)
             if rng.random() < 0.5:
                 new = ast.Name(id="___", ctx=getattr(node, "ctx", ast.Load()))
+                orig_of[id(new)] = orig_of[id(node)]
+                placeholders[id(new)] = new
                 steps.append("wild:" + type(node).__name__)
             else:
                 key = "__e%d__" % len(exps)
                 new = ast.Name(id=key, ctx=getattr(node, "ctx", ast.Load()))
                 o = orig_of[id(node)]
+                orig_of[id(new)] = o
+                placeholders[id(new)] = new
                 # a placeholder that is a whole expression statement stands for the statement: CAIT binds it
                 # to the Expr node, whose only child is the replaced expression
                 alt = opath[id(o)][:-1] if isinstance(parent, ast.Expr) else None
@@ -846,7 +916,18 @@ def derive(rng, code, tree, whole=None, max_steps=4):
     # negative constants or implicit tuples): otherwise this is not a C11-derived pattern
     if ast.dump(reparsed) != ast.dump(frag):
         return None
-    return Derived(code, pattern, exps, vars_, steps, base)
+    # which program node every pattern node stands for (the alignment the C11 theorem's checker is given)
+    align = []
+    try:
+        if frag is work:
+            align_trees(frag, tree, (), (), orig_of, placeholders, align)
+        else:
+            for i, st in enumerate(frag.body):
+                o = orig_of[id(st)]
+                align_trees(st, o, (i,), opath[id(o)], orig_of, placeholders, align)
+    except (AlignError, KeyError):
+        align = None
+    return Derived(code, pattern, exps, vars_, steps, base, align)
 
 
 def mutate_pattern(rng, pattern):
